@@ -3,7 +3,7 @@
 
 use super::ops::*;
 use super::trace::*;
-use crate::kernel::{self, OwnedRaw};
+use crate::kernel::{self, BorrowedRaw, OwnedRaw};
 use calloop::channel::{self, Channel, Event as ChEvent, Sender, SyncSender};
 use calloop::generic::Generic;
 use calloop::ping::{make_ping, Ping, PingSource};
@@ -456,7 +456,15 @@ pub struct Opts {
     pub epoll_each_step: bool,
 }
 
+pub struct WAsync {
+    pub adapter: Option<calloop::io::Async<'static, BorrowedRaw>>,
+    pub slot: u8,
+    pub fd: RawFd,
+}
+
 pub struct Ctx {
+    pub fdslots: [Option<(OwnedRaw, Option<OwnedRaw>)>; 4],
+    pub asyncs: Vec<WAsync>,
     pub sh: Sh,
     pub handle: Option<LoopHandle<'static, Ctx>>,
     pub srcs: Vec<WSrc>,
@@ -464,7 +472,7 @@ pub struct Ctx {
     pub idles: Vec<WIdle>,
     pub cur_idle: Option<IdleId>,
     pub depth: u32,
-    pub by_kind: [Vec<SrcId>; 6],
+    pub by_kind: [Vec<SrcId>; 7],
     pub poisoned: bool,
     pub epfd: RawFd,
     pub opts: Opts,
@@ -476,6 +484,7 @@ const K_TIMER: usize = 2;
 const K_GEN: usize = 3;
 const K_EXEC: usize = 4;
 const K_PROBE: usize = 5;
+const K_GEN_BAD: usize = 6;
 
 fn interest_of(i: u8) -> Interest {
     match i & 3 {
@@ -766,6 +775,7 @@ impl Ctx {
                     }
                 }
             }
+            Kind::BadGen { .. } => {}
             Kind::Exec => {
                 // executor sources are driven by the sched engine (C10); not part of this machine yet
             }
@@ -1179,6 +1189,100 @@ impl Ctx {
                     }
                 }
             }
+            Op::Adapt { fd, blocking } => {
+                if self.asyncs.len() >= 12 {
+                    return;
+                }
+                let slot = (*fd % 4) as usize;
+                if self.fdslots[slot].is_none() {
+                    self.fdslots[slot] = Some(if slot == 3 {
+                        let name = std::ffi::CString::new("vh-regular").unwrap();
+                        let m = unsafe { libc::memfd_create(name.as_ptr(), libc::MFD_CLOEXEC) };
+                        (OwnedRaw(m), None)
+                    } else {
+                        let (a, b) = kernel::socketpair();
+                        (OwnedRaw(a), Some(OwnedRaw(b)))
+                    });
+                }
+                let raw = self.fdslots[slot].as_ref().unwrap().0 .0;
+                let live_before = self.asyncs.iter().any(|a| a.slot as usize == slot && a.adapter.is_some());
+                if !live_before {
+                    kernel::set_nonblocking(raw, !*blocking);
+                }
+                let nb_before = kernel::is_nonblocking(raw);
+                sh.push(Ev::Op(ROp::Adapt { slot: slot as u8, fd: raw, live_before, regular_file: slot == 3, nonblocking_before: nb_before }));
+                let h = self.h();
+                let r = catch_unwind(AssertUnwindSafe(|| h.adapt_io(BorrowedRaw(raw))));
+                match r {
+                    Ok(Ok(a)) => {
+                        let idx = self.asyncs.len();
+                        self.asyncs.push(WAsync { adapter: Some(a), slot: slot as u8, fd: raw });
+                        sh.push(Ev::Adapted { a: Some(idx), nonblocking_after: kernel::is_nonblocking(raw) });
+                        sh.push(Ev::OpRes(Res::Ok));
+                    }
+                    Ok(Err(e)) => {
+                        sh.push(Ev::Adapted { a: None, nonblocking_after: kernel::is_nonblocking(raw) });
+                        sh.push(Ev::OpRes(res_of::<()>(&Err(e))));
+                    }
+                    Err(p) => {
+                        self.poisoned = true;
+                        sh.push(Ev::OpRes(panic_res(p)));
+                    }
+                }
+            }
+            Op::AsyncDrop { a } | Op::AsyncIntoInner { a } => {
+                let Some(i) = pick(*a, self.asyncs.len()) else { return };
+                let Some(ad) = self.asyncs[i].adapter.take() else { return };
+                let into_inner = matches!(op, Op::AsyncIntoInner { .. });
+                let fd = self.asyncs[i].fd;
+                sh.push(Ev::Op(ROp::AsyncRelease { a: i, fd, into_inner }));
+                let r = catch_unwind(AssertUnwindSafe(move || {
+                    if into_inner {
+                        let _ = ad.into_inner();
+                    } else {
+                        drop(ad);
+                    }
+                }));
+                sh.push(Ev::AsyncReleased { a: i, nonblocking_after: kernel::is_nonblocking(fd) });
+                self.finish_unit(r);
+            }
+            Op::InsertBad { which } => {
+                if self.srcs.len() >= 48 {
+                    return;
+                }
+                let which = *which % 3;
+                let raw = match which {
+                    0 => 1 << 20,
+                    1 => {
+                        if self.fdslots[3].is_none() {
+                            let name = std::ffi::CString::new("vh-regular").unwrap();
+                            let m = unsafe { libc::memfd_create(name.as_ptr(), libc::MFD_CLOEXEC) };
+                            self.fdslots[3] = Some((OwnedRaw(m), None));
+                        }
+                        self.fdslots[3].as_ref().unwrap().0 .0
+                    }
+                    _ => {
+                        // duplicate registration: the fd of a live adapter
+                        match self.asyncs.iter().find(|a| a.adapter.is_some()) {
+                            Some(a) => a.fd,
+                            None => return,
+                        }
+                    }
+                };
+                let kind = Kind::BadGen { which };
+                let id = self.new_src(&kind, &[], K_GEN_BAD);
+                sh.push(Ev::Created { src: id, info: KInfo { kind: kind.clone(), fd: raw, deadline_ns: None, recycled_from: None } });
+                let alive = self.srcs[id].alive.clone();
+                let g = Generic::new(BorrowedRaw(raw), Interest::READ, Mode::Level);
+                let t = Tracked::new(g, id, &sh, &alive);
+                let cg = CbGuard { id, sh: sh.clone() };
+                let r = self.insert_any(id, t, move |_rd: Readiness, _fd: &mut calloop::generic::NoIoDrop<BorrowedRaw>, ctx: &mut Ctx| {
+                    let _ = &cg;
+                    ctx.on_cb(id, Payload::Ready { r: true, w: false, e: false, now_r: false, now_w: false, now_h: false });
+                    Ok(PostAction::Continue)
+                }, false);
+                let _ = self.record_insert(id, false, false, r);
+            }
             Op::Dispatch { .. } => {}
         }
     }
@@ -1226,6 +1330,8 @@ pub fn run_history(case: &HistCase, opts: Opts) -> Vec<Ev> {
     let epfd = el.as_raw_fd();
     let epoll_each = opts.epoll_each_step;
     let mut ctx = Ctx {
+        fdslots: [None, None, None, None],
+        asyncs: Vec::new(),
         sh: sh.clone(),
         handle: Some(el.handle()),
         srcs: Vec::new(),
@@ -1282,6 +1388,7 @@ pub fn run_history(case: &HistCase, opts: Opts) -> Vec<Ev> {
             ctx.handle = None;
             drop(el);
             sh.push(Ev::LoopDropped);
+            ctx.asyncs.clear();
             release_kept(&mut ctx, &sh);
             ctx.idles.clear();
             ctx.srcs.clear();
@@ -1304,6 +1411,7 @@ pub fn run_history(case: &HistCase, opts: Opts) -> Vec<Ev> {
             for i in ctx.idles.iter_mut() {
                 i.handle.take();
             }
+            ctx.asyncs.clear();
             sh.push(Ev::KeptDropped);
             ctx.handle = None;
             drop(el);
